@@ -1550,6 +1550,13 @@ impl Linearizer {
     /// * `Err(LinearizationError)` - If linearization fails
     pub fn linearize(model: Model) -> Result<LinearModel, LinearizationError> {
         let (objective, constraints, mut domain) = model.into_components();
+        // bounds are inferred from the normalized rows, so that the spelling of a
+        // constant (`x / -2`, `(0 - 2) * x`, a named constant) does not decide
+        // whether a bound is found
+        let constraints = constraints
+            .into_iter()
+            .map(Constraint::normalized)
+            .collect::<Vec<_>>();
         let bounds = BoundsAnalyzer::analyze(&domain, &constraints);
         bounds.apply_to_domain(&mut domain);
         let mut context = Linearizer::new_from_with_bounds(constraints, domain, bounds);
